@@ -131,7 +131,9 @@ func (m *rGen) text(unguarded bool) string {
 	return sb.String()
 }
 
-var rTags = []string{`<a href="x">`, `</a>`, `<br/>`, `<br>`, `<b>`, `</b>`, `<a href="y">`, `<p>`, `</p>`, `<img src="s"/>`, `<A HREF="x">`, `<a href="{$url}">`}
+var rTags = []string{`<a href="x">`, `</a>`, `<br/>`, `<br>`, `<b>`, `</b>`, `<a href="y">`, `<p>`, `</p>`, `<img src="s"/>`, `<A HREF="x">`, `<a href="{$url}">`,
+	// custom elements, digits, capitals, underscores in tag names (the placeholder name must stay readable by Parts)
+	`<my-button>`, `</my-button>`, `<x-foo bar="1"/>`, `<h1>`, `</h1>`, `<Img/>`, `<tBody>`, `<my_tag>`, `<a-b-c>`}
 
 func (m *rGen) flat(maxItems int, unguarded bool) string {
 	r := m.r
